@@ -17,14 +17,15 @@ from . import common
 
 def in_path(root, name, form, cwd):
     p = os.path.join(root, "data", name)
-    if form in ("rel", "rel/"):
+    if form in ("rel", "rel/", "dot"):
         p = os.path.relpath(p, cwd)
     if form.endswith("/"):
         p += "/"
     return p
 
 
-IN_FORMS = ["abs", "rel", "abs/", "rel/"]
+# "dot": the tool is started INSIDE its (first) input directory and names it "."
+IN_FORMS = ["abs", "rel", "abs/", "rel/", "dot"]
 
 
 class ToolCase:
@@ -33,6 +34,8 @@ class ToolCase:
     has_cli = True
     writer = True
     needs_3d = True
+    primary = "plt00100"          # name under <root>/data of the first input
+    default_in_cwd = False        # the documented default output is a name in the cwd, not beside the input
 
     def __init__(self):
         self.opts = {}
@@ -56,9 +59,15 @@ class ToolCase:
         o["cwd"] = src.choice("form.cwd", ["work", "data"])
         outs = ["abs", "rel"] + (["default"] if (self.has_default_out and allow_default) else [])
         o["out"] = src.choice("form.out", outs)
+        if o["in_form"] == "dot" and o["out"] == "default" and self.default_in_cwd:
+            # combine and whip document their default output as a name in the CURRENT directory: started
+            # inside the input, that request is itself "inside the input" - not the tool's doing
+            o["out"] = "abs"
         o["cli"] = bool(src.draw("form.cli", 0, 1)) if self.has_cli else False
 
     def cwd(self, root):
+        if self.opts.get("in_form") == "dot":
+            return os.path.join(root, "data", self.primary)
         return os.path.join(root, self.opts.get("cwd", "work"))
 
     def out_arg(self, root, name):
@@ -128,6 +137,8 @@ class ColanderT(ToolCase):
 # ------------------------------------------------------------------------------ combine
 class CombineT(ToolCase):
     name = "combine"
+    primary = "plt1"
+    default_in_cwd = True
     has_default_out = True
 
     def draw(self, ctx, src, mono_only=False):
@@ -402,6 +413,7 @@ class MandolineT(ToolCase):
 class WhipT(ToolCase):
     name = "whip"
     has_default_out = True
+    default_in_cwd = True
 
     def draw(self, ctx, src):
         self.m = _world3d(src)
